@@ -92,7 +92,7 @@ func realHandlerScenario(name string, stages []string, sigs []os.Signal, bound i
 			fs := make([]*c19Factory, n)
 			mainPhase := "wait(false)"
 			delivered := 0
-			res := sched.Run(c, sched.Options{}, func() {
+			res := sched.Run(c, sched.Options{MainMayBlock: true}, func() {
 				s := sched.Cur()
 				for i, st := range stages {
 					i, st := i, st
